@@ -75,6 +75,7 @@ func (w *world) UDPSend(s *vnet.Sim, k *vnet.Socket, src, dst netip.AddrPort, pa
 func (w *world) play(s *vnet.Sim, k *vnet.Socket, src netip.AddrPort, emits []Emit) {
 	for i := range emits {
 		e := emits[i]
+		e.Class = e.Class + "@" + strconv.Itoa(k.Task) + "." + strconv.Itoa(k.Step) + "." + strconv.Itoa(i)
 		switch e.Via {
 		case "udp":
 			from, err := netip.ParseAddrPort(e.From)
